@@ -412,7 +412,8 @@ def _wrap_method(cls, name, fn):
         if boundary and "FORM" in st.monitors and st.rec is not None and (
                 name not in form.SKIP_METHODS):
             try:
-                if form.selected(f"{key}[{flags}]") and not form.has_tracer((self, args, kwargs)):
+                fkey = form.key_of(key, flags, self, args, kwargs)
+                if form.selected(fkey) and not form.has_tracer((self, args, kwargs)):
                     form_pre = form.clone_state((self, args, kwargs))
             except Exception:
                 form_pre = None
@@ -471,7 +472,7 @@ def _wrap_method(cls, name, fn):
             st.suspend += 1
             try:
                 if not form.has_tracer(res):
-                    form.run(fn, name, f"{key}[{flags}]", res, form_pre, st, _report, _count)
+                    form.run(fn, name, fkey, res, form_pre, st, _report, _count)
             except Exception as e:  # a monitor must never break the workload
                 st.rec.count("monitor_error")
                 if len(st.rec.notes) < 5:
